@@ -187,3 +187,142 @@ package container
 //@   loop 0: invariant forall k int :: rangeindex < k && k < len(open) ==> len(openErrors[k]) == 0
 //@   callsite os.OpenFile: assert @C14 O.checked == name && O.checked_ok
 //@   callsite (*containerServer).sendReplyFiles: assert @C14 len(rep.BatchErrors) == len(open) && len(msg.Fds) == rank(rep.BatchErrors, len(open)) && len(fileToClose) == len(msg.Fds)
+
+// ---- host side of the RPC (typestate over H.st, spec/protocol.contracts) ----
+
+//@ func container.(*container).sendCmd props C10
+//@   arith int
+//@   requires send_ok(H.st, int(cmd.Cmd))
+//@   assigns H.st
+//@   abstracts result == nil ==> H.st == send_next(old(H.st), int(cmd.Cmd))
+//@   abstracts result != nil ==> H.st == 9
+//@   abstracts old(H.st) == 9 ==> result != nil
+
+//@ func container.(*container).recvReply props C10
+//@   arith int
+//@   requires hrecv_ok(H.st)
+//@   assigns H.st, H.batch, H.fds
+//@   abstracts result.2 != nil ==> H.st == 9
+//@   abstracts old(H.st) == 9 ==> result.2 != nil
+//@   abstracts result.2 == nil ==> H.st == hrecv_next(old(H.st), result.0.Error != nil)
+//@   abstracts result.2 == nil && old(H.st) == 2 && result.0.Error == nil ==> result.1.Cred != nil
+//@   abstracts H.batch == result.0.BatchErrors && H.fds == result.1.Fds
+//@   abstracts forall j int :: soff(result.1.Fds) <= j && j < soff(result.1.Fds) + len(result.1.Fds) ==> 0 <= cell(result.1.Fds, j) && cell(result.1.Fds, j) < 2147483648
+
+//@ func container.(*container).recvAckReply props C10
+//@   arith int
+//@   requires H.st == 1 || H.st == 9
+//@   assigns H.st, H.batch, H.fds
+//@   ensures H.st == 0 || H.st == 9
+//@   ensures H.st == 9 ==> result != nil
+
+//@ func chan.recv:container.container.recvCh
+//@   assumed "role of recvCh while a program runs: the container's result"
+//@   assigns H.st
+//@   ensures old(H.st) == 5 ==> H.st == 6
+//@   ensures old(H.st) != 5 ==> H.st == old(H.st)
+
+//@ func chan.recv:container.container.done
+//@   assumed "role of done: the transport is lost"
+//@   assigns H.st
+//@   ensures H.st == 9
+
+//@ func container.(*container).Ping props C10
+//@   arith int
+//@   requires c != nil && c.socket != nil && c.socket.Socket != nil && c.socket.Socket.UnixConn != nil && (H.st == 0 || H.st == 9)
+//@   assigns H.st, H.batch, H.fds
+//@   ensures H.st == 0 || H.st == 9
+//@   ensures H.st == 9 ==> result != nil
+
+//@ func container.(*container).Delete props C10 C14
+//@   arith int
+//@   requires c != nil && (H.st == 0 || H.st == 9)
+//@   assigns H.st, H.batch, H.fds
+//@   ensures H.st == 0 || H.st == 9
+//@   ensures H.st == 9 ==> result != nil
+
+//@ func container.(*container).Reset props C10 C13
+//@   arith int
+//@   requires c != nil && (H.st == 0 || H.st == 9)
+//@   assigns H.st, H.batch, H.fds
+//@   ensures H.st == 0 || H.st == 9
+//@   ensures H.st == 9 ==> result != nil
+
+//@ func container.(*container).conf props C10
+//@   arith int
+//@   requires c != nil && conf != nil && (H.st == 0 || H.st == 9)
+//@   assigns H.st, H.batch, H.fds
+//@   ensures H.st == 0 || H.st == 9
+
+//@ func container.(*container).Symlink props C10 C14
+//@   arith int
+//@   requires c != nil && (H.st == 0 || H.st == 9)
+//@   assigns H.st, H.batch, H.fds
+//@   ensures H.st == 0 || H.st == 9
+//@   ensures @C14 result.1 == nil ==> len(result.0) == len(l) && len(H.batch) == len(l)
+//@   ensures @C14 result.1 == nil ==> forall i int :: 0 <= i && i < len(l) ==> ((len(H.batch[i]) == 0) <==> (result.0[i] == nil))
+//@   loop 0: invariant -1 <= rangeindex && rangeindex < len(H.batch) && len(results) == len(l) && len(H.batch) == len(l) && fresh(results) && soff(results) == 0 && (H.st == 0 || H.st == 9) && H.batch == reply.BatchErrors
+//@   loop 0: invariant forall i int :: 0 <= i && i <= rangeindex ==> ((len(H.batch[i]) == 0) <==> (results[i] == nil))
+
+//@ func container.(*container).execveSyncKill props C10
+//@   arith int
+//@   requires c != nil && (H.st == 3 || H.st == 9)
+//@   assigns H.st, H.batch, H.fds
+//@   ensures H.st == 0 || H.st == 9
+
+//@ func container.(*container).waitForDone props C10 C11
+//@   arith int
+//@   requires c != nil && ctx != nil && (H.st == 5 || H.st == 9)
+//@   assigns H.st, H.batch, H.fds
+//@   ensures H.st == 0 || H.st == 9
+
+// user callback of Execve
+//@ func funcvalue:container.ExecveParam.SyncFunc
+//@   assumed "the caller's sync callback does not touch the control socket"
+//@   pure
+
+//@ func container.(*container).Execve props C10
+//@   arith int
+//@   requires c != nil && ctx != nil && (H.st == 0 || H.st == 9)
+//@   assigns H.st, H.batch, H.fds
+//@   ensures H.st == 0 || H.st == 9
+//@   callsite (*container).sendCmd: assert @C10 int(cmd.Cmd) == 5 ==> cmd.ExecCmd != nil
+
+//@ func container.errResult props C09
+//@   arith int
+//@   assigns nothing
+//@   ensures int(result.Status) == 8 && (len(f) > 0 && f[0] != '%' ==> len(result.Error) > 0)
+
+// Runner Error iff transport error, error reply or missing exec reply - always with a text;
+// otherwise status, exit value, time and memory are passed through unchanged.
+//@ func container.convertReplyResult props C09
+//@   arith int
+//@   assigns nothing
+//@   ensures err != nil || reply.Error != nil || reply.ExecReply == nil ==> int(result.Status) == 8
+//@   ensures err != nil ==> len(result.Error) > 0
+//@   ensures err == nil && reply.Error == nil && reply.ExecReply == nil ==> len(result.Error) > 0
+//@   ensures err == nil && reply.Error == nil && reply.ExecReply != nil ==> result.Status == reply.ExecReply.Status && result.ExitStatus == reply.ExecReply.ExitStatus && result.Time == reply.ExecReply.Time && result.Memory == reply.ExecReply.Memory
+
+// deferred clean-up of Open: on error every descriptor not yet wrapped is closed
+//@ func container.(*container).Open$1 props C12
+//@   arith int
+//@   requires 0 <= fdIndex
+//@   assigns FD.closed
+//@   ensures err != nil ==> forall k int :: fdIndex <= k && k < len(msg.Fds) ==> FD.closed[msg.Fds[k]]
+//@   loop 0: invariant -1 <= rangeindex && rangeindex < len(results)
+//@   loop 0: invariant err != nil ==> forall k int :: fdIndex <= k && k < len(msg.Fds) ==> FD.closed[msg.Fds[k]]
+
+// Open: the k-th result belongs to the k-th request; a success carries the descriptor whose position
+// among the received descriptors is the number of successes before it (rank).
+//@ func container.(*container).Open props C10 C12 C14
+//@   arith int
+//@   requires c != nil && (H.st == 0 || H.st == 9)
+//@   assigns H.st, H.batch, H.fds, FD.closed
+//@   ensures @C10 H.st == 0 || H.st == 9
+//@   ensures @C14 err == nil ==> len(results) == len(p) && len(H.batch) == len(p)
+//@   ensures @C14 err == nil ==> forall i int :: 0 <= i && i < len(p) ==> (len(H.batch[i]) != 0 ==> results[i].File == nil && results[i].Err != nil)
+//@   ensures @C14 err == nil ==> forall i int :: 0 <= i && i < len(p) ==> (len(H.batch[i]) == 0 ==> results[i].File != nil && results[i].Err == nil && fdof(results[i].File) == H.fds[rank(H.batch, i)])
+//@   loop 0: invariant -1 <= rangeindex && rangeindex < len(H.batch) && (H.st == 0 || H.st == 9) && H.batch == reply.BatchErrors && H.fds == msg.Fds && len(H.batch) == len(p)
+//@   loop 0: invariant len(results) == len(p) && fresh(results) && soff(results) == 0 && fdIndex == rank(H.batch, rangeindex + 1) && fdIndex <= len(H.fds) && err == nil
+//@   loop 0: invariant forall i int :: 0 <= i && i <= rangeindex ==> (len(H.batch[i]) != 0 ==> results[i].File == nil && results[i].Err != nil)
+//@   loop 0: invariant forall i int :: 0 <= i && i <= rangeindex ==> (len(H.batch[i]) == 0 ==> results[i].File != nil && results[i].Err == nil && fdof(results[i].File) == H.fds[rank(H.batch, i)])
